@@ -116,7 +116,7 @@ const L_BOOL: Lang = Lang {
     lits: &["true", "false"],
 };
 const L_SIM: Lang = Lang {
-    bin: &["+", "-", "*", "/", "%", "^", "+", "*"],
+    bin: &["+", "-", "*", "+", "-", "*", "^", "/", "%", "+", "*", "-", "+", "*"],
     call: &["min", "max"],
     unary: &["-", "sq", "inc"],
     consts: &["TEN"],
